@@ -281,6 +281,9 @@ func (vc *VC) pixOffset(st *State, args []Val, bpp int64) []Outcome {
 		// the spec side evaluates PixOffset in older states (prev(...)) whose facts would not reach the obligation.
 		axiom := func(t Term) { vc.decl(fmt.Sprintf("(assert %s) ;anchor=%s", t.E, off.E)) }
 		axiom(insideFact)
+		// the row facts are only needed by code that walks along a row from a hoisted offset; they slow the
+		// solvers down (multiplications), so they are left out of the first attempts
+		axiom = func(t Term) { vc.decl(fmt.Sprintf("(assert %s) ;lazyanchor=%s", t.E, off.E)) }
 		// The whole row of a y inside Rect lies within Pix (A-IMG): with rowstart = off - (x-Min.X)*bpp,
 		// 0 <= rowstart <= rowstart + Dx*bpp <= len(Pix). Linear in the offsets (bpp is a constant), so code that
 		// computes a row's first offset once and walks along the row stays provable.
